@@ -78,7 +78,7 @@ impl<'a> Tape<'a> {
 // Known findings
 
 #[derive(Clone, Debug)]
-pub struct Known { pub property: String, pub signature: String, pub what: String }
+pub struct Known { pub property: String, pub signature: String, pub what: String, pub listed_as: String }
 
 pub fn load_known(prop: &str) -> Vec<Known> {
     let mut out = vec![];
@@ -89,7 +89,16 @@ pub fn load_known(prop: &str) -> Vec<Known> {
             let parts: Vec<&str> = rest.splitn(3, " | ").map(|s| s.trim()).collect();
             if parts.len() == 3 {
                 if let Some(p) = parts[0].strip_prefix("property=") {
-                    if p == prop { out.push(Known { property: p.to_string(), signature: parts[1].to_string(), what: parts[2].to_string() }); }
+                    if p != prop { continue }
+                    if let Some(file) = parts[1].strip_prefix('@') {
+                        // a data file with one exact signature per line; all of them belong to this one finding
+                        let body = std::fs::read_to_string(format!("{VERIF}/{file}")).unwrap_or_default();
+                        for sig in body.lines().map(|l| l.trim()).filter(|l| !l.is_empty() && !l.starts_with('#')) {
+                            out.push(Known { property: p.to_string(), signature: sig.to_string(), what: parts[2].to_string(), listed_as: parts[1].to_string() });
+                        }
+                    } else {
+                        out.push(Known { property: p.to_string(), signature: parts[1].to_string(), what: parts[2].to_string(), listed_as: parts[1].to_string() });
+                    }
                 }
             }
         }
@@ -195,7 +204,7 @@ impl Ctx {
                 if self.counting { self.evaluations += 1; }
                 if !self.strict {
                     if let Some(k) = self.known.iter().find(|k| sig_matches(&k.signature, signature)) {
-                        let key = format!("{} | {}", k.signature, k.what);
+                        let key = format!("{} | {}", k.listed_as, k.what);
                         let first = !self.known_hits.contains_key(&key);
                         *self.known_hits.entry(key).or_insert(0) += if self.counting || first { 1 } else { 0 };
                         return false;
@@ -366,7 +375,7 @@ fn run_regress(p: &dyn Property) -> (Vec<(String, String)>, Vec<String>, u64) {
         match p.check(&case) {
             Outcome::Fail { signature, .. } => {
                 if let Some(k) = known.iter().find(|k| sig_matches(&k.signature, &signature)) {
-                    known_lines.push(format!("{} | {}", k.signature, k.what));
+                    known_lines.push(format!("{} | {}", k.listed_as, k.what));
                 } else {
                     viol.push((signature, f.display().to_string()));
                 }
@@ -480,7 +489,7 @@ pub fn driver_main(p: &dyn Property, tier: Tier, seed: u64) -> i32 {
     }
     for (sig, case, detail) in p.post(tier, seed, &results) {
         let mut c = Ctx::new(id, tier, seed, 0, 1);
-        if let Some(k) = c.known.iter().find(|k| sig_matches(&k.signature, &sig)) { *known_hits.entry(format!("{} | {}", k.signature, k.what)).or_insert(0) += 1; continue; }
+        if let Some(k) = c.known.iter().find(|k| sig_matches(&k.signature, &sig)) { *known_hits.entry(format!("{} | {}", k.listed_as, k.what)).or_insert(0) += 1; continue; }
         c.violation(&sig, &case, &detail);
         violations.extend(c.violations);
     }
